@@ -21,6 +21,14 @@ BUDGET = {'quick': 2500, 'thorough': 10000}
 
 @st.composite
 def _case(draw):
+    if draw(st.integers(0, 5)) == 0:
+        # profile: three or four callers with one transaction each, exactly one early request dropped, no retries - one caller
+        # fails while others are queued and others still arrive
+        n = draw(st.integers(3, 4))
+        k = draw(st.integers(1, 2))
+        return {'client': draw(st.sampled_from(['tcp', 'tcp', 'rtu', 'udp'])), 'ntx': [1] * n, 'split': [False] * 12,
+                'faults': [i == k for i in range(12)], 'bcast': [], 'refuse': [], 'badreq': [], 'retries': 0,
+                'schedule': draw(st.lists(st.integers(0, 3), min_size=8, max_size=60))}
     nthreads = draw(st.integers(2, 4))
     ntx = [draw(st.integers(1, 3)) for _ in range(nthreads)]
     return {'client': draw(st.sampled_from(['tcp', 'tcp', 'rtu', 'udp'])), 'ntx': ntx,
